@@ -11,7 +11,9 @@
    "two passes started with the poisoned polarity" to the direct save is left to it.
    The JSON text and the hand-written (un)marshalers are not modelled. *)
 From Coq Require Import String.
-From Fiano Require Import Base.Bytes Model.Ffs Model.Extract Proofs.ExtractProofs.
+From Fiano Require Import Base.Bytes Model.TightenMe Model.FlashImage Proofs.TightenMeProofs.
+From Fiano Require Import Model.Nvar Model.ExtractNvar Proofs.ExtractNvarProofs.
+From Fiano Require Import Model.Ffs Model.Extract Model.ExtractFlash Proofs.ExtractProofs Proofs.ExtractFlashProofs.
 Open Scope Z_scope.
 
 (* ---- path uniqueness ---- *)
@@ -180,6 +182,79 @@ Theorem C07_guid_text_roundtrip : forall g,
 Proof. exact guid_text_roundtrip. Qed.
 Print Assumptions C07_guid_text_roundtrip.
 
+(* ---- the text of a path determines the path ---- *)
+
+(* [valid_pc]: offsets, indices and section numbers are not negative, GUIDs are 16 bytes.  On such
+   components the rendering (fmt %#x, %v, GUID.String, the fixed names, '/' as separator) is injective,
+   so distinct component lists are distinct file names *)
+Theorem C07_render_path_injective : forall p q,
+  Forall valid_pc p -> Forall valid_pc q -> render_path p = render_path q -> p = q.
+Proof. exact render_path_inj. Qed.
+Print Assumptions C07_render_path_injective.
+
+(* for every image without flash descriptor: the file names extract writes are pairwise distinct *)
+Theorem C07_extract_path_texts_nodup_image : forall dec u2s nvar d,
+  (forall k p e, dec k p = Some e -> bytes_ok e = true) ->
+  forall img ps, bytes_ok img = true -> extract_paths dec u2s nvar d img = Ok ps ->
+  NoDup (map render_path ps).
+Proof. exact image_path_texts_nodup. Qed.
+Print Assumptions C07_extract_path_texts_nodup_image.
+
+(* ---- the flash level (Intel flash images: descriptor, BIOS / ME / raw regions, uncovered ranges) ---- *)
+
+(* [good_img]: a byte string of whole 4 KiB blocks, below 256 MiB.  The descriptor, every region and
+   every range that no region entry covers (RawRegions of type Unknown, which share one directory)
+   get files of their own: the regions of a flash layout have strictly increasing base offsets and
+   every region file name carries the base offset *)
+Theorem C07_flash_paths_nodup : forall dec u2s nvar d,
+  (forall k p e, dec k p = Some e -> bytes_ok e = true) ->
+  forall img ps, good_img img -> flash_extract_paths dec u2s nvar d img = Ok ps -> NoDup ps.
+Proof. exact flash_paths_nodup. Qed.
+Print Assumptions C07_flash_paths_nodup.
+
+Theorem C07_flash_path_texts_nodup : forall dec u2s nvar d,
+  (forall k p e, dec k p = Some e -> bytes_ok e = true) ->
+  forall img ps, good_img img -> flash_extract_paths dec u2s nvar d img = Ok ps ->
+  NoDup (map render_path ps).
+Proof. exact flash_path_texts_nodup. Qed.
+Print Assumptions C07_flash_path_texts_nodup.
+
+(* extract + save-from-directory of a flash image = parse + the same two Assemble passes, with equal
+   error classes; no hypothesis on the image beyond [good_img] *)
+Theorem C07_flash_dir_roundtrip_image : forall dec enc u2s s2u nvar mangle3 d,
+  (forall k p e, dec k p = Some e -> bytes_ok e = true) ->
+  forall img, good_img img ->
+  flash_dir_save dec enc u2s s2u nvar mangle3 d img = flash_save_twice_image dec enc u2s s2u nvar d img.
+Proof. exact flash_dir_save_eq. Qed.
+Print Assumptions C07_flash_dir_roundtrip_image.
+
+(* ---- NVAR stores (Model/Nvar.v, Model/ExtractNvar.v) ---- *)
+
+(* [nv_paths_ok]: the entries of a store, recursively through nested stores, have pairwise distinct
+   (GUID directory, file name): valid non-link variables of one GUID have distinct names; link entries
+   and entries that are not valid are told apart by their offsets.  Then no two entries write the same
+   file ... *)
+Theorem C07_nvar_paths_nodup : forall d s f,
+  nv_paths_ok d s -> nv_extract d [] s = Ok f -> NoDup (map fst f).
+Proof. exact nv_extract_nodup. Qed.
+Print Assumptions C07_nvar_paths_nodup.
+
+(* ... and extract + ParseDir + Assemble of the store gives the bytes (or the error class) of Assemble
+   on the parsed store: valid entries are rebuilt from the JSON fields around the extracted content,
+   all other entries are the extracted bytes verbatim *)
+Theorem C07_nvar_dir_roundtrip : forall enc16 pol d s f,
+  nv_paths_ok d s -> nv_extract d [] s = Ok f ->
+  exists s', nv_reload d f [] s = Ok s' /\
+    out_rel (fun x y => Nvar.s_buf x = Nvar.s_buf y) (asm_store enc16 pol d s') (asm_store enc16 pol d s).
+Proof. exact nv_dir_roundtrip. Qed.
+Print Assumptions C07_nvar_dir_roundtrip.
+
+Theorem C07_nvar_dir_save : forall dec16 enc16 pol d b s f,
+  parse_store dec16 pol b = Ok s -> nv_paths_ok d s -> nv_extract d [] s = Ok f ->
+  nv_dir_save dec16 enc16 pol d b = nv_direct_save dec16 enc16 pol d b.
+Proof. exact nv_dir_save_eq. Qed.
+Print Assumptions C07_nvar_dir_save.
+
 (* ---------- Examples: a concrete image meets the hypotheses ---------- *)
 
 (* a padding and one FFS2 volume holding a driver (UI "AB", a raw and a version section) and a raw
@@ -256,4 +331,71 @@ Example ex_wf_needed :
   | Ok (a, _), Ok (b, _) => negb (bytes_eqb (node_buf a) (node_buf b))
   | _, _ => false
   end = true.
+Proof. vm_compute. split; reflexivity. Qed.
+
+(* a 16 KiB flash image: descriptor block, an uncovered block, the BIOS region holding [ex_img], another
+   uncovered block; the two uncovered ranges share the directory "Unknown Region (-1)" *)
+Definition ex_desc : bytes :=
+  zrepeat 255 16 ++ [90; 165; 240; 15] ++ [3; 0; 4; 0; 8; 1; 16; 0; 32; 0; 0; 0; 0; 0; 0; 0] ++ zrepeat 255 28 ++
+  ([0; 0; 0; 0] ++ [2; 0; 2; 0] ++ concat (map (fun _ => [255; 127; 0; 0]) (seq 0 14))) ++
+  zrepeat 0 12 ++ zrepeat 255 (4096 - 140).
+Definition ex_flash : bytes :=
+  ex_desc ++ zrepeat 17 4096 ++ (ex_img ++ zrepeat 255 (4096 - 176)) ++ zrepeat 34 4096.
+
+Example ex_flash_paths :
+  match flash_extract_paths no_codec ascii_u2s no_nvar 8 ex_flash with
+  | Ok ps => map render_path ps
+  | _ => []
+  end =
+  map str ["ifd/flashdescriptor.bin";
+           "Unknown Region (-1)/0x1000.bin";
+           "bios/biospad_0x0/pad.bin";
+           "bios/0x8/fvh.bin";
+           "bios/0x8/04030201-0605-0807-090A-0B0C0D0E0F10/0/0/0.sec";
+           "bios/0x8/04030201-0605-0807-090A-0B0C0D0E0F10/0/1/1.sec";
+           "bios/0x8/04030201-0605-0807-090A-0B0C0D0E0F10/0/2/2.sec";
+           "bios/0x8/04030201-0605-0807-090A-0B0C0D0E0F10/1/04030201-0605-0807-090A-0B0C0D0E0F10.ffs";
+           "bios/biospad_0xb0/pad.bin";
+           "Unknown Region (-1)/0x3000.bin"]%string.
+Proof. vm_compute. reflexivity. Qed.
+
+Example ex_flash_dir_save :
+  match flash_dir_save no_codec no_codec ascii_u2s ascii_s2u no_nvar same3 8 ex_flash with
+  | Ok b => bytes_eqb b ex_flash
+  | _ => false
+  end = true.
+Proof. vm_compute. reflexivity. Qed.
+
+(* the components of the example are valid, and a negative offset is what [valid_pc] excludes *)
+Example ex_valid : Forall valid_pc [C_bios; C_hex 8; C_guid (zrepeat 7 16); C_dec 0; N_sec 0].
+Proof. repeat constructor; cbn; auto; lia. Qed.
+
+(* an NVAR store: a full variable "Ab", a data-only entry nobody links to (header valid bit SET, computed
+   type "Invalid link": dumped whole as 0x20.nvar and read back verbatim), an entry with the valid bit
+   cleared, erased free space *)
+Definition ex_store : bytes :=
+  [78;86;65;82; 32;0; 255;255;255; 134] ++ [1;2;3;4;5;6;7;8;9;10;11;12;13;14;15;16] ++ [65;98;0] ++ [9;8;7] ++
+  [78;86;65;82; 12;0; 255;255;255; 136] ++ [5;5] ++
+  [78;86;65;82; 29;0; 255;255;255; 6] ++ [1;2;3;4;5;6;7;8;9;10;11;12;13;14;15;16] ++ [88;0] ++ [1] ++
+  zrepeat 255 8.
+
+Example ex_store_hypotheses :
+  match parse_store dec16_impl 255 ex_store with
+  | Ok s => (map v_type (s_entries s), nvnodupb (nv_all_paths 4 [] s))
+  | _ => ([], false)
+  end = ([4; 1; 0], true).   (* full, invalid link, invalid *)
+Proof. vm_compute. reflexivity. Qed.
+
+Example ex_store_paths :
+  match nv_extract_paths dec16_impl 255 4 ex_store with
+  | Ok ps => map render_nvpath ps
+  | _ => []
+  end = map str ["04030201-0605-0807-090A-0B0C0D0E0F10/Ab.bin";
+                 "00000000-0000-0000-0000-000000000000/0x20.nvar";
+                 "00000000-0000-0000-0000-000000000000/0x2c.nvar"]%string.
+Proof. vm_compute. reflexivity. Qed.
+
+Example ex_store_dir_save :
+  nv_dir_save dec16_impl enc16_impl 255 4 ex_store = Ok ex_store /\
+  nv_direct_save dec16_impl enc16_impl 255 4 ex_store = Ok ex_store.
 Proof. vm_compute. split; reflexivity. Qed.
